@@ -15,6 +15,12 @@
 #include <unordered_map>
 
 extern "C" {
+int __real_pthread_rwlock_wrlock(pthread_rwlock_t *);
+int __real_pthread_rwlock_rdlock(pthread_rwlock_t *);
+int __real_pthread_rwlock_unlock(pthread_rwlock_t *);
+int __wrap_pthread_rwlock_wrlock(pthread_rwlock_t *);
+int __wrap_pthread_rwlock_rdlock(pthread_rwlock_t *);
+int __wrap_pthread_rwlock_unlock(pthread_rwlock_t *);
 int __wrap_lrtr_get_monotonic_time(time_t *seconds);
 unsigned int __wrap_sleep(unsigned int seconds);
 void __wrap_lrtr_dbg(const char *frmt, ...);
@@ -117,7 +123,14 @@ struct Engine {
 	time_t honest_since = 0;
 	long honest_bound = 0;
 	bool honest_started = false;
-	int honest_successes = 0;
+	int honest_successes = 0, honest_queries = 0;
+	// reader battery (C06 tier A / A', C04 downstream asserts)
+	bool reload_active = false, in_battery = false;
+	std::vector<std::string> seq_pfx, seq_spki;
+	pthread_t fsm_thread;
+	bool have_fsm_thread = false;
+	int lock_depth = 0;
+	long battery_samples = 0;
 	// threads
 	sem_t sem_main, sem_park;
 	std::vector<int> state_seq;
@@ -310,6 +323,7 @@ static std::string ids(const IdSet &s)
 	return o.str();
 }
 
+static void sample_battery();
 // update callbacks -> mirrors (C09 / C10 in conversations)
 static void pfx_cb(struct pfx_table *t, const struct pfx_record rec, const bool added)
 {
@@ -317,6 +331,7 @@ static void pfx_cb(struct pfx_table *t, const struct pfx_record rec, const bool 
 	int id = pfx_to_id(&rec);
 	int src = rec.socket == &E->sock ? 0 : rec.socket == &E->other ? 1 : -1;
 	if (id < 0 || src < 0) { if (!E->weak && !E->mirror_bad) { E->mirror_bad = true; E->mirror_msg = "prefix callback for a record nobody announced"; } return; }
+	if (E->reload_active && E->lock_depth == 0) sample_battery(); // some paths notify while holding the table lock
 	bool ok = added ? E->pfx_mirror.insert({id, src}).second : E->pfx_mirror.erase({id, src}) == 1;
 	if (!ok && !E->mirror_bad) {
 		E->mirror_bad = true;
@@ -329,6 +344,7 @@ static void spki_cb(struct spki_table *t, const struct spki_record rec, const bo
 	int id = key_to_id(&rec);
 	int src = rec.socket == &E->sock ? 0 : rec.socket == &E->other ? 1 : -1;
 	if (id < 0 || src < 0) { if (!E->weak && !E->mirror_bad) { E->mirror_bad = true; E->mirror_msg = "router-key callback for a key nobody announced"; } return; }
+	if (E->reload_active && E->lock_depth == 0) sample_battery();
 	bool ok = added ? E->spki_mirror.insert({id, src}).second : E->spki_mirror.erase({id, src}) == 1;
 	if (!ok && !E->mirror_bad) {
 		E->mirror_bad = true;
@@ -338,6 +354,7 @@ static void spki_cb(struct spki_table *t, const struct spki_record rec, const bo
 
 } // namespace cs
 
+#include "convsim_battery.inc"
 #include "convsim_model.inc"
 #include "convsim_mock.inc"
 #include "convsim_run.inc"
